@@ -40,6 +40,26 @@ def fixed_programs(g):
         {"name": None, "ty": P("u8"), "attrs": {"skip": True, "default": True}}, {"name": None, "ty": P("bool"), "attrs": {"skip": True, "default": True}}]})
     imap = {x["name"]: x for x in items}
     progs.append({"items": items, "probes": [{"ty": N(x["name"]), "values": g.all_variant_values(N(x["name"]), imap), "de": True} for x in items]})
+    # the same type twice in one item, in both orders: inlined / flattened and by name (the by-name use needs its import either way)
+    leaf = {"kind": "struct", "name": "FxLeaf", "shape": "named", "attrs": {}, "generics": [], "de": True,
+            "fields": [{"name": "leaf_v", "ty": P("u8"), "attrs": {}}]}
+    leaf2 = {"kind": "struct", "name": "FxLeafB", "shape": "named", "attrs": {}, "generics": [], "de": True,
+             "fields": [{"name": "leaf_w", "ty": VEC(N("FxLeaf")), "attrs": {}}]}
+    items = [leaf, leaf2]
+    def two(name, a1, a2, t1=None, t2=None):
+        return {"kind": "struct", "name": name, "shape": "named", "attrs": {}, "generics": [], "de": True,
+                "fields": [{"name": "first", "ty": t1 or N("FxLeaf"), "attrs": a1}, {"name": "second", "ty": t2 or N("FxLeaf"), "attrs": a2}]}
+    items += [two("FxInlThenName", {"inline": True}, {}), two("FxNameThenInl", {}, {"inline": True}),
+              two("FxFlatThenName", {"flatten": True}, {}), two("FxNameThenFlat", {}, {"flatten": True}),
+              two("FxInlThenVec", {"inline": True}, {}, t2=VEC(N("FxLeaf"))), two("FxInlBThenName", {"inline": True}, {}, t1=N("FxLeafB")),
+              two("FxOptInlThenName", {"inline": True}, {}, t1=OPT(N("FxLeaf")), t2=OPT(N("FxLeaf")))]
+    items.append({"kind": "enum", "name": "FxTwiceVar", "attrs": {"tag": "t", "content": "c"}, "generics": [], "de": True,
+                  "variants": [{"name": "A", "shape": "named", "attrs": {}, "fields": [{"name": "first", "ty": N("FxLeaf"), "attrs": {"inline": True}},
+                                                                                  {"name": "second", "ty": N("FxLeaf"), "attrs": {}}]},
+                               {"name": "B", "shape": "tuple", "attrs": {}, "fields": [{"name": None, "ty": N("FxLeaf"), "attrs": {"inline": True}}]},
+                               {"name": "C", "shape": "tuple", "attrs": {}, "fields": [{"name": None, "ty": N("FxLeaf"), "attrs": {}}]}]})
+    imap = {x["name"]: x for x in items}
+    progs.append({"items": items, "probes": [{"ty": N(x["name"]), "values": g.all_variant_values(N(x["name"]), imap)[:3], "de": True} for x in items]})
     return progs
 
 
